@@ -34,6 +34,8 @@ FILES = {
     # the same comment text and the same include twice on one level (the reader keeps each once)
     "dup.dict": "// ----\na 1;\n// ----\nb 2;\nn { // ----\n x 1; // ----\n }\n",
     "dup2.dict": "#include 'inc1'\nc 3;\n#include 'inc1'\n",
+    # an include that climbs out of its folder: resolved against the real parent, also when the file is named through a link
+    "case/up.dict": "#include '../b.dict'\n#include '../sub/inc'\nu \"$z + 1\";\n",
     "model.xml": "<model><item id='1'>a</item><item>b</item><sub><x>1</x><x>2</x></sub></model>",
 }
 
@@ -45,6 +47,8 @@ def build(td: Path):
         p.write_text(t)
     (td / "proj" / "out").mkdir()
     (td / "elsewhere").mkdir()
+    (td / "elsewhere" / "deep").mkdir()
+    os.symlink(td / "proj" / "case", td / "elsewhere" / "deep" / "linkcase", target_is_directory=True)   # physical parent differs from lexical parent
 
 
 def canon_sd(sd) -> dict:
@@ -93,6 +97,8 @@ def do_op(td: Path, op: tuple, probe: bool = False):
     def path(spec_):
         name, spelling = spec_
         p = proj / name
+        if name.startswith("@link/"):
+            p = td / "elsewhere" / "deep" / "linkcase" / name[6:]
         if spelling == "rel":
             return Path(os.path.relpath(p, os.getcwd()))
         return p
@@ -145,6 +151,7 @@ PROBES = [("read", ("a.dict", "abs"), {}), ("read", ("a.dict", "rel"), {"comment
           ("read", ("m.dict", "abs"), {}), ("read", ("m.dict", "rel"), {"comments": False}), ("parse", ("m.dict", "abs"), {}),
           ("write", "probe.xml", "w", {"000001_a": 1, "000002_a": {"000003_b": "x y"}, "c": [1, 2]}, "rel"),
           ("parse", ("model.xml", "abs"), {"output": "xml"}), ("read", ("model.xml", "rel"), {}),
+          ("read", ("case/up.dict", "abs"), {}), ("read", ("case/up.dict", "rel"), {}),
           ("read", ("dup.dict", "abs"), {}), ("parse", ("dup.dict", "rel"), {}), ("read", ("dup2.dict", "abs"), {}), ("load", ("dup.dict", "abs"))]
 
 
@@ -186,6 +193,15 @@ def process(ctx: Ctx, cases: list[dict]) -> None:
             if got != base_cache[key]:
                 ctx.violation("result depends on earlier operations / counter value / working directory / path spelling", c, got, base_cache[key],
                               replay=c)
+        elif c["kind"] == "alias":
+            ctx.case(c, True, ("alias",))
+            try:
+                ra = run_history(-1, c["cwd"], [], ("read", tuple(c["a"]), {}))
+                rb = run_history(-1, c["cwd"], [], ("read", tuple(c["b"]), {}))
+            except Exception as e:  # noqa: BLE001
+                ctx.violation("reading a file named through a symbolic link to its folder raises", c, repr(e), "same data as by its physical path"); continue
+            if ra != rb:
+                ctx.violation("a file named through a symbolic link to its folder reads differently from the same file named by its physical path", c, rb, ra)
         elif c["kind"] == "readopts":
             # every combination of the read options, from several counter values: model readFile vs DictReader.read
             ctx.case(c, True, ("readopts",))
@@ -282,6 +298,9 @@ def run(ctx: Ctx) -> None:
         for inc, order, comments, scope in itertools.product([True, False], [False, True], [True, False], [None, ["n"], ["nope"]]):
             for st in rng.sample([-1, 0, 41, LIMIT - 3, LIMIT - 1, LIMIT], 2 if ctx.tier == "quick" else 6):
                 cases.append({"kind": "readopts", "file": file, "start": st, "opts": {"includes": inc, "order": order, "comments": comments, "scope": scope}})
+    # the same file named through a symbolic link to its folder reads like the file named by its physical path
+    for cwd, sp in itertools.product(cwds + ["elsewhere/deep"], ["abs", "rel"]):
+        cases.append({"kind": "alias", "cwd": cwd, "a": ["case/up.dict", sp], "b": ["@link/up.dict", sp]})
     for text in (FILES["a.dict"], FILES["b.dict"], "a 'x'; b 'y'; // c\n/* d */ e \"$a\";\n"):
         cases.append({"kind": "model", "text": text, "starts": [-1, 0, 41, LIMIT - 3, LIMIT - 1, LIMIT]})
     process(ctx, cases)
